@@ -57,6 +57,14 @@ func (s Seed) Public() slip10.Key {
 }
 
 // Shift derives a new Seed from the provided bytes.
+// ValidateIndex implements slip10.IndexValidator: SLIP-0010 only defines hardened derivation for ed25519.
+func (Seed) ValidateIndex(index uint32) error {
+	if index < slip10.Hardened {
+		return ErrNotHardened
+	}
+	return nil
+}
+
 func (Seed) Shift(buf []byte) (slip10.Key, error) {
 	if len(buf) != ed25519.SeedSize {
 		panic("invalid buffer length")
